@@ -351,6 +351,14 @@ impl RecordSet {
             //   everything under it (via DNAME).
             RecordType::CNAME | RecordType::ANAME => {
                 assert!(self.records.len() <= 1);
+                // the identical record is already there, nothing changes
+                if self
+                    .records
+                    .first()
+                    .is_some_and(|rr| *rr == record && rr.ttl == record.ttl)
+                {
+                    return false;
+                }
                 self.records.clear();
             }
             _ => (),
